@@ -34,4 +34,15 @@ CLAIMED["C02"] = {
     "note": TB + "; producers not modelled (geometry, BMOC conversion, STC-S) are only tested through validB",
     "technique": "Lean 4 proof (induction over programs) + differential correspondence + executable judge proved equivalent to the property",
 }
+CLAIMED["C03"] = {
+    "text": "Theorems (all canonical MOCs of any size, all query values): contains_val ⇔ membership (binary search on flattened bounds + parity, "
+            "search modelled by its contract), contains_range ⇔ every index covered, intersects_range / intersects ⇔ a common index exists, "
+            "contains(rhs) ⇔ subset, overlapped_by_iter = filter of the ranges meeting rhs (total, incl. empty operands); the models are the "
+            "transliterated Rust functions run against the real code exhaustively over a small universe (every point / range / pair) and on "
+            "boundary-biased deep MOCs. Partial: fractions, percentage, range_sum = cardinality and the MOM weighted sum are tied by the "
+            "correspondence (bit-exact) but carry no theorem yet.",
+    "design_ref": "DESIGN.md §4 C03, §10",
+    "note": TB + "; Lean Float (C double) for the last division of fraction pairs",
+    "technique": "Lean 4 proof over an executable model + exhaustive small-scope differential correspondence",
+}
 NOT_YET = {}
